@@ -200,6 +200,44 @@ def run_compact(acc):
     acc.sample({"clause": "to_compact", "measurement": "(1500 +/- 200) kilometer", "expected": "(1.5 +/- 0.2) megameter"})
 
 
+# ----------------------------------------------------------------------------- bare uncertain numbers
+
+
+def run_bare_uncertain(acc):
+    """an uncertain NUMBER (a bare ufloat, no units) is a dimensionless operand like any other number: added to, subtracted
+    from or order-compared with a dimensional measurement / quantity it is refused with DimensionalityError — also when its
+    nominal value is 0 (only an exact 0 is the unit-free zero); with a dimensionless operand it is plain propagation"""
+    from uncertainties import ufloat
+    ureg = regs.default("float")
+    Q, Meas = ureg.Quantity, ureg.Measurement
+    import operator as op_
+    ops = [("+", op_.add), ("-", op_.sub), ("<", op_.lt), (">", op_.gt), ("<=", op_.le), (">=", op_.ge)]
+    lefts = [("Measurement(5, 0.4, m)", lambda: Meas(5.0, 0.4, "meter")), ("Quantity(ufloat(5, 0.4), m)", lambda: Q(ufloat(5.0, 0.4), "meter")), ("Quantity(5, m)", lambda: Q(5.0, "meter")),
+             ("Measurement(0, 0.4, m)", lambda: Meas(0.0, 0.4, "meter")), ("Measurement(5, 0.4, km/m)", lambda: Meas(5.0, 0.4, "kilometer/meter")), ("Measurement(5, 0.4, '')", lambda: Meas(5.0, 0.4, ""))]
+    for (ln, lf), (v, e), (on, of), order in itertools.product(lefts, ((0.0, 0.3), (1.0, 0.3), (0.0, 1e-9), (-2.0, 0.5)), ops, ("q op n", "n op q")):
+        acc.ev()
+        acc.nt(("bare-uncertain", ln, v, e, on, order))
+        q, n = lf(), ufloat(v, e)
+        o = call((lambda: of(q, n)) if order == "q op n" else (lambda: of(n, q)))
+        dimensional = "'')" not in ln and "km/m" not in ln
+        case = {"quantity": ln, "number": f"ufloat({v}, {e})", "op": on, "order": order}
+        if dimensional:
+            refused = o == ("exc", "DimensionalityError") or (on not in ("+", "-") and o == ("exc", "ValueError"))  # ordering against a number: "Cannot compare Quantity and <type>"
+            if not refused:
+                acc.violation(["arithmetic", on, "unit-less-uncertain-number-combined-with-a-dimensional-quantity", "nominal-zero" if v == 0 else "nominal-nonzero"], case, "DimensionalityError", repr(o)[:140])
+            acc.outcome("refused")
+        elif on in ("+", "-") and o[0] == "ok":
+            scale = 1000.0 if "km/m" in ln else 1.0
+            a, b = (5.0 * scale, v) if order == "q op n" else (v, 5.0 * scale)
+            want_v = a + b if on == "+" else a - b
+            want_e = math.hypot(0.4 * scale, e)
+            r = o[1].to("") if hasattr(o[1], "to") else o[1]
+            if not close(nominal(r), want_v, 1e-12) or not close(stddev(r), want_e, 1e-9):
+                acc.violation(["arithmetic", on, "dimensionless-with-uncertain-number-wrong-propagation", ""], case, [want_v, want_e], [nominal(r), stddev(r)])
+            acc.outcome("propagated")
+    acc.sample({"clause": "bare-uncertain", "quantity": "Measurement(5, 0.4, m)", "number": "ufloat(0.0, 0.3)", "op": "+", "expected": "DimensionalityError"})
+
+
 # ----------------------------------------------------------------------------- arithmetic
 
 
@@ -417,7 +455,7 @@ def run_formats(acc):
 
 
 def shards(tier, seed):
-    return [("constructors",), ("conversions",), ("arithmetic",), ("formats",), ("compact",)] + [("notations", b, 8) for b in range(8)]
+    return [("constructors",), ("conversions",), ("arithmetic",), ("formats",), ("compact",), ("bare-uncertain",)] + [("notations", b, 8) for b in range(8)]
 
 
 def run_shard(acc, shard, tier, seed):
@@ -432,6 +470,8 @@ def run_shard(acc, shard, tier, seed):
         run_formats(acc)
     elif k == "compact":
         run_compact(acc)
+    elif k == "bare-uncertain":
+        run_bare_uncertain(acc)
     elif k == "notations":
         run_notations(acc, shard[1], shard[2])
     else:
@@ -441,6 +481,10 @@ def run_shard(acc, shard, tier, seed):
 def replay(rec):
     site = rec["site"]
     acc = core.Acc(PROPERTY)
+    if len(site) > 2 and site[2].startswith(("unit-less-uncertain", "dimensionless-with-uncertain")):
+        run_bare_uncertain(acc)
+        sites = {tuple(v["site"]) for v in acc.violations}
+        return tuple(site) in sites, {"sites_seen": sorted(sites)[:20]}
     if len(site) > 1 and site[1] in ("to_compact", "compact-flag"):
         run_compact(acc)
         sites = {tuple(v["site"]) for v in acc.violations}
